@@ -206,7 +206,7 @@ func (e *emitter) steps(ev []event, ref *refRun) []string {
 				}
 			}
 			out = append(out, "SRead")
-		case "begin-r", "end-r", "stmt-err", "list":
+		case "begin-r", "end-r", "stmt-err", "list", "init":
 			out = append(out, "SRead")
 		case "set":
 			out = append(out, fmt.Sprintf("SSet %d [0]", e.mid(x.Args[0])))
